@@ -28,6 +28,15 @@ bytes go through `FakeTransport.feed`, which honours `pause_reading()`: a sessio
 not see the bytes, the oracle still counts them.  Both oracles are unchanged.  Model side: the remote monitor consults neither
 the queue nor the dispatcher (Props/C09Flow.lean explains why there is nothing to add); the callbacks of a transport with write
 flow control are events of `hbf.run` (Model/MonitorFlow.lean), `C09Flow_*`.
+
+Backlog of UNPARSED bytes (`flood_case`): the backlog above is one of parsed messages (thousands of frames, tens of kilobytes).  The
+other backlog a session can hold is the reader's buffer: the reader parses one frame per 0.1 ms poll (0.08 units), so a burst of
+300 - 600 KiB of small frames (tens of thousands of soup frames, thousands of FIX frames) written by the peer in one go takes
+hundreds of intervals to parse, while the peer goes on heart-beating in every window.  Same events (`recv:burst:<n>@<d>`, n chosen
+from the frame size of the role so that the burst is a multiple of 256 KiB / 64 KiB marks a byte-based limit could sit at), same
+transport (`feed`: one `data_received` call for what the peer wrote while the session was reading, everything else waits while
+reading is paused), same oracle: never to be dropped.  The run stops a few intervals after the burst (nothing of either clause needs
+the drain to complete).
 """
 import itertools
 import json
@@ -247,6 +256,39 @@ def burst_case(rng, role, P, far, n, L):
     return {'role': role, 'ci': ci, 'si': si, 'events': ev, 'horizon': H}
 
 
+# smallest inbound frame `Rig._frame('msg', lat)` produces per role, in bytes (soup: 2 length + 1 type + payload; FIX: a Nope with
+# header, Username and trailer is 85+ bytes): used to size a burst in BYTES, and checked against the transport's log in check_case
+FRAME_MIN = {'soupClient': 3, 'soupServer': 3, 'fix': 85}
+FLOOD_KIB = [272, 300, 384, 520, 600]                 # beyond 256 KiB, beyond 512 KiB
+FLOOD_KIB_SMALL = [70, 96, 136, 200]                  # thorough only: beyond 64 KiB / 128 KiB
+
+
+def burst_bytes(case):
+    """lower bound of the bytes the largest `recv:burst` of a case carries"""
+    best = 0
+    for _t, e in case['events']:
+        if e.startswith('recv:burst:'):
+            n, lat = e[11:].split('@')
+            per = FRAME_MIN[case['role']] + (len(lat) if case['role'] != 'fix' else 0)
+            best = max(best, int(n) * per)
+    return best
+
+
+def flood_case(rng, role, P, far, kib, L):
+    """the peer writes `kib` KiB of small frames in one go (tens of thousands of soup frames / thousands of FIX frames: a backlog of
+    UNPARSED bytes in the reader's buffer that takes the one-frame-per-poll reader hundreds of intervals to work off), then goes on
+    heart-beating every P-2 units (whole heartbeats, fragments, small messages).  Never to be dropped.  The horizon ends a few
+    intervals after the burst: both clauses are decided by then, the rest of the drain adds nothing."""
+    lat = str(L)
+    per = FRAME_MIN[role] + (len(lat) if role != 'fix' else 0)
+    n = kib * 1024 // per + 1
+    t0 = rng.choice([1, 3, P + 1, 2 * P + 3])
+    H = (t0 + rng.choice([5, 7, 10]) * P) | 1
+    ev = mc.merge([[t0, f'recv:burst:{n}@{lat}']], mc.feed(P - 2, H, rng.choice(['recv:hb', 'recv:hb', 'recv:frag', 'recv:msg']), start=1 if t0 > 1 else 3))
+    ci, si = (P, rng.choice([P, 6, 12])) if role == 'soupServer' else (far, P)
+    return {'role': role, 'ci': ci, 'si': si, 'events': ev, 'horizon': H}
+
+
 def add_latency(rng, case, P):
     """slow application callbacks on some of the messages of a random schedule"""
     ev = []
@@ -322,9 +364,14 @@ def check_case(ctx, case, model_line, tag, obs=None):
     for _t, ev in case['events']:
         if ev.startswith('send'):
             ctx.count(f"{case['role']}:{ev}")
+    bb = burst_bytes(case)
+    if bb:
+        ctx.count('burst-bytes:' + ('>512KiB' if bb > 512 * 1024 else '>256KiB' if bb > 256 * 1024 else '>64KiB' if bb > 64 * 1024 else '<=64KiB'))
     if 'error' in obs:
         ctx.count('impl-error')
     else:
+        if obs.get('read_paused'):
+            ctx.count('session-paused-reading')
         ctx.count('closed:' + (obs['closed'][1] if obs['closed'] else 'no'))
         ctx.count('intervals:' + ('equal' if case['ci'] == case['si'] else 'unequal'))
         c = mc.life(obs, case)
@@ -419,6 +466,9 @@ def run(ctx):
                        'second slow message / a live peer, soup server also with a slow on_login, and slow callbacks on 20% of the random '
                        'schedules; inbound back-pressure: bursts of several hundred to a few thousand messages in one segment with an awaiting '
                        'consumer while the peer goes on heart-beating, all bytes through a transport that honours pause_reading(); '
+                       'backlog of UNPARSED bytes: 272 - 600 KiB of small frames written in one go (tens of thousands of soup frames, thousands '
+                       'of FIX frames; the reader parses one per 0.08 units) while the peer goes on heart-beating, 2 per quick run / 18 in thorough '
+                       '(there also 70 - 200 KiB); '
                        'write flow control episodes (as C08) on 6% of the random schedules; '
                        'bare monitors with tolerance 0..3 (30% with hold-ups, oracle only); distinct = distinct case')
     ctx.notes.append('a hold-up is a synchronous jump of the virtual clock inside a callback; "the peer delivers a byte" is then the instant the bytes '
@@ -457,6 +507,13 @@ def run(ctx):
     for i in range(36 if thorough else 3):
         role = mc.ROLES[i % 3]
         cases.append(('burst', burst_case(rng, role, rng.choice([6, 8, 8, 12]), 400, rng.choice(sizes), rng.choice([0.3, 0.5, 0.5, 1.5]))))
+    # floods: a backlog of unparsed BYTES (the roles alternate with the seed; FIX frames are encoded one by one: the slowest)
+    order = list(mc.ROLES)
+    rng.shuffle(order)
+    for i in range(18 if thorough else 2):
+        role = order[i % 3]
+        kib = rng.choice(FLOOD_KIB + (FLOOD_KIB_SMALL if thorough else []))
+        cases.append(('flood', flood_case(rng, role, rng.choice([6, 8, 8, 12]), 400, kib, rng.choice([0.5, 0.5, 0.3, 1.5]))))
     import c08
     for _ in range(16000 if thorough else 1300):
         c = random_case(rng, thorough)
